@@ -757,10 +757,10 @@ def main():
                 state = "still-fails" if rc == 3 else ("passes-now" if rc == 0 else "unexpected rc=%s: %s" % (rc, out[-300:]))
                 break
         probe_state[k["id"]] = state
-        if state == "still-fails" or (state == "no-probe" and met.get(k["id"], 0) > 0):
+        if state == "still-fails" or met.get(k["id"], 0) > 0:
             print("KNOWN-FINDING: property=%s %s [%s; probe %s; %d generated cases inside its region]" % (
                 prop, k["what"], k["id"], state, met.get(k["id"], 0)))
-        elif state == "passes-now":
+        elif state == "passes-now" and met.get(k["id"], 0) == 0:
             notes.append("known finding %s: probe input no longer fails (entry can be moved to 'fixed')" % k["id"])
         elif state.startswith("unexpected"):
             notes.append("known finding %s: probe %s" % (k["id"], state))
